@@ -1,4 +1,5 @@
 import Supv.Lemmas.Strat
+import Supv.Props.C14
 
 /-!
 # C10 — Every start/stop job terminates in bounded ticks whatever gets lost
@@ -71,5 +72,179 @@ theorem C10_only_backoff_rearms (waitExit ignore : Bool) (v : Info) :
     (startEventResult waitExit ignore v).2 = true ↔ v.state = .backoff := by
   unfold startEventResult
   cases v.state <;> simp <;> split <;> simp
+
+
+/-! ## The target instance is lost
+
+The time-outs above are counted in the ticks of the TARGET: a request that targets an instance which is not seen RUNNING any more
+would never be given up.  `on_instances_invalidation` therefore removes the lost instances from the job: the pending requests are
+dropped (`startJobInvalidation`, first part), and - fix 36715a1 - the planned commands of a non-distributed application, whose
+instance was assigned when the job started, are assigned again (`retargetPlanned`). -/
+
+/-- the command does not target a lost instance -/
+def CleanCmd (lost : List Nat) (c : Command) : Prop := ∀ i, c.target = some i → i ∉ lost
+
+theorem clean_of_not_any (lost : List Nat) (c : Command) (h : c.target.any (fun i => lost.contains i) = false) : CleanCmd lost c := by
+  intro i hi hm
+  rw [hi] at h
+  simp at h
+  exact h hm
+
+/-- what `on_command_added` gives a command whose identifier has been cleared never targets an instance that is not RUNNING -/
+theorem retarget_one_clean (w : W) (lost : List Nat) (view : AppJobs) (c : Command)
+    (hl : ∀ i ∈ lost, w.instRunning.getD i false = false) :
+    CleanCmd lost (match onCommandAdded w view { c with target := none } with | .ok c' => c' | .err _ => { c with target := none }) := by
+  cases h : onCommandAdded w view { c with target := none } with
+  | err e => intro i hi; cases hi
+  | ok c' =>
+    rcases Supv.Props.C14.C14_command_added w view _ c' h with he | ⟨i, _, ht, _, _, hrun, _⟩
+    · subst he; intro i hi; cases hi
+    · intro k hk hm
+      rw [ht] at hk; cases hk
+      rw [hl i hm] at hrun; cases hrun
+
+theorem retargetCmds_clean (w : W) (lost : List Nat) (j0 : AppJobs) (preG postG : List (Nat × List Command)) (seq : Nat)
+    (hl : ∀ i ∈ lost, w.instRunning.getD i false = false) :
+    ∀ (todo preC : List Command), (∀ c ∈ preC, CleanCmd lost c) →
+      ∀ c ∈ retargetCmds w lost j0 preG postG seq preC todo, CleanCmd lost c := by
+  intro todo
+  induction todo with
+  | nil => intro preC h c hc; exact h c hc
+  | cons c0 rest ih =>
+    intro preC h c hc
+    unfold retargetCmds at hc
+    split at hc
+    · refine ih _ ?_ c hc
+      intro x hx
+      rcases List.mem_append.mp hx with hx | hx
+      · exact h x hx
+      · rw [List.mem_singleton.mp hx]; exact retarget_one_clean w lost _ c0 hl
+    · rename_i hd
+      refine ih _ ?_ c hc
+      intro x hx
+      rcases List.mem_append.mp hx with hx | hx
+      · exact h x hx
+      · rw [List.mem_singleton.mp hx]; exact clean_of_not_any lost c0 (by simpa using hd)
+
+theorem retargetGroups_clean (w : W) (lost : List Nat) (j0 : AppJobs) (hl : ∀ i ∈ lost, w.instRunning.getD i false = false) :
+    ∀ (todo preG : List (Nat × List Command)), (∀ g ∈ preG, ∀ c ∈ g.2, CleanCmd lost c) →
+      ∀ g ∈ retargetGroups w lost j0 preG todo, ∀ c ∈ g.2, CleanCmd lost c := by
+  intro todo
+  induction todo with
+  | nil => intro preG h g hg; exact h g hg
+  | cons g0 rest ih =>
+    intro preG h g hg
+    unfold retargetGroups at hg
+    refine ih _ ?_ g hg
+    intro x hx
+    rcases List.mem_append.mp hx with hx | hx
+    · exact h x hx
+    · rw [List.mem_singleton.mp hx]
+      exact retargetCmds_clean w lost j0 preG rest g0.1 hl g0.2 [] (by intro c hc; cases hc)
+
+/-- **C10 / C04 (the target instance is lost before the request is sent).**  After `on_instances_invalidation`, no planned command
+    of a non-distributed application targets a lost instance any more - for every job, every set of lost instances (none of them
+    seen RUNNING: `invalidate_failed` has just marked them) and every plan: the request `process_job` sends later goes to an
+    instance chosen again among the selected ones that are seen RUNNING, or the start fails with 'No resource available'. -/
+theorem C10_lost_target_planned_retargeted (w : W) (lost : List Nat) (j : AppJobs)
+    (hd : (w.acfg.getD j.app default).distribution ≠ .all)
+    (hl : ∀ i ∈ lost, w.instRunning.getD i false = false) :
+    ∀ g ∈ (retargetPlanned w lost j).planned, ∀ c ∈ g.2, CleanCmd lost c := by
+  unfold retargetPlanned
+  rw [if_neg hd]
+  exact retargetGroups_clean w lost _ hl _ [] (by intro g hg; cases hg)
+
+/-- the same through `startJobInvalidation` (what the Starter calls for each of its jobs) -/
+theorem C10_lost_target_after_invalidation (w : W) (lost : List Nat) (j : AppJobs) (failed : List Nat)
+    (hd : (w.acfg.getD j.app default).distribution ≠ .all)
+    (hl : ∀ i ∈ lost, w.instRunning.getD i false = false) :
+    ∀ g ∈ (startJobInvalidation w lost j failed).1.planned, ∀ c ∈ g.2, CleanCmd lost c := by
+  unfold startJobInvalidation
+  simp only
+  have happ : ∀ (l : List Command) (a : AppJobs × List Nat), a.1.app = j.app →
+      (l.foldl (fun (acc : AppJobs × List Nat) c =>
+        if c.target.any (fun i => lost.contains i) then
+          (processFailure w { acc.1 with current := acc.1.current.filter (fun cc => !(cc.proc = c.proc ∧ cc.target = c.target)) } c.proc,
+           acc.2.filter (· ≠ c.proc))
+        else acc) a).1.app = j.app := by
+    intro l
+    induction l with
+    | nil => intro a h; exact h
+    | cons c t ih =>
+      intro a h
+      simp only [List.foldl_cons]
+      apply ih
+      split
+      · simp only [processFailure]; repeat' split
+        all_goals simp_all
+      · exact h
+  apply C10_lost_target_planned_retargeted w lost _ _ hl
+  rw [happ j.current (j, failed) rfl]; exact hd
+
+theorem processFailure_current (w : W) (j : AppJobs) (p : Nat) : (processFailure w j p).current = j.current := by
+  simp only [processFailure]
+  split
+  · split <;> rfl
+  · rfl
+
+/-- the first part of `startJobInvalidation`: the walk over the pending requests -/
+def dropStep (w : W) (lost : List Nat) (acc : AppJobs × List Nat) (c : Command) : AppJobs × List Nat :=
+  if c.target.any (fun i => lost.contains i) then
+    (processFailure w { acc.1 with current := acc.1.current.filter (fun cc => !(cc.proc = c.proc ∧ cc.target = c.target)) } c.proc,
+     acc.2.filter (· ≠ c.proc))
+  else acc
+
+theorem dropStep_fold (w : W) (lost : List Nat) :
+    ∀ (l : List Command) (acc : AppJobs × List Nat), ∀ x ∈ (l.foldl (dropStep w lost) acc).1.current,
+      x ∈ acc.1.current ∧ (x ∈ l → CleanCmd lost x) := by
+  intro l
+  induction l with
+  | nil => intro acc x hx; exact ⟨hx, fun h => by cases h⟩
+  | cons c t ih =>
+    intro acc x hx
+    simp only [List.foldl_cons] at hx
+    obtain ⟨h1, h2⟩ := ih _ x hx
+    unfold dropStep at h1
+    split at h1
+    · rename_i hd
+      rw [processFailure_current] at h1
+      simp only [List.mem_filter] at h1
+      refine ⟨h1.1, fun hm => ?_⟩
+      rcases List.mem_cons.mp hm with he | ht
+      · subst he; simp at h1
+      · exact h2 ht
+    · rename_i hd
+      refine ⟨h1, fun hm => ?_⟩
+      rcases List.mem_cons.mp hm with he | ht
+      · subst he; exact clean_of_not_any lost _ (by simpa using hd)
+      · exact h2 ht
+
+/-- **C10 (the target instance is lost after the request was sent).**  After `on_instances_invalidation` no pending request of the
+    job targets a lost instance: each one has been dropped (and counted as a starting failure), so that nothing is left waiting
+    for the ticks of an instance that does not tick any more. -/
+theorem C10_lost_target_current_dropped (w : W) (lost : List Nat) (j : AppJobs) (failed : List Nat) :
+    ∀ c ∈ (startJobInvalidation w lost j failed).1.current, CleanCmd lost c := by
+  intro c hc
+  have hcur : (startJobInvalidation w lost j failed).1.current = (j.current.foldl (dropStep w lost) (j, failed)).1.current := by
+    unfold startJobInvalidation retargetPlanned
+    simp only
+    split <;> rfl
+  rw [hcur] at hc
+  obtain ⟨h1, h2⟩ := dropStep_fold w lost j.current (j, failed) c hc
+  exact h2 h1
+
+/-- non-vacuity: SINGLE_NODE application on a node of two instances, both commands planned on instance 1; instance 1 is lost:
+    the commands move to instance 0 -/
+example : ((retargetPlanned { Supv.Props.C14.snW with instRunning := [true, false] } [1]
+      { app := 0, strategy := .lessLoaded, identifiers := [0, 1],
+        planned := [(1, [{ proc := 0, strategy := .lessLoaded, target := some 1 }, { proc := 1, strategy := .lessLoaded, target := some 1 }])] }).planned.map
+      (fun g => g.2.map (·.target))) = [[some 0, some 0]] := by decide +kernel
+
+/-- SINGLE_INSTANCE flavour: nothing is left, the identifiers are cleared (the start fails with 'No resource available') -/
+def siJ : AppJobs := retargetPlanned { Supv.Props.C14.snW with instRunning := [true, false] } [1]
+      { app := 0, strategy := .lessLoaded, identifiers := [1],
+        planned := [(1, [{ proc := 0, strategy := .lessLoaded, target := some 1 }])] }
+
+example : (siJ.identifiers, siJ.planned.map (fun g => g.2.map (·.target))) = ([], [[none]]) := by decide +kernel
 
 end Supv.Props.C10
